@@ -8,8 +8,8 @@ from vf import objgen as G
 from contracts import parsing as K
 
 LEVEL = 'other'
-JUNK = [None, True, False, 0, -1, 2**70, 1.5, '', 'x', 'a' * 300, [], [None], [[]], [{}], ['x', 1], {}, {'a': None}, {'type': 'x'}, {'': {'': []}}, [{'a': [{'b': None}]}]]
-JUNK_QUICK = [None, False, 0, 1.5, '', 'x', [], [{}], {}, {'a': None}]
+JUNK = [None, True, False, 0, -1, 2**70, 10**400, 1.5, '', 'x', 'a' * 300, [], [None], [[]], [{}], ['x', 1], {}, {'a': None}, {'type': 'x'}, {'': {'': []}}, [{'a': [{'b': None}]}]]
+JUNK_QUICK = [None, False, 0, 10**400, 1.5, '', 'x', [], [{}], {}, {'a': None}]
 
 
 def family_ok(ex):
@@ -108,8 +108,8 @@ def run(chk):
                        'custom property naming; region contract cut at the property loop, self abstracted to an arbitrary property-name set); callee '
                        'preconditions (recursive detect call, registry lookup, constructor) are call-site obligations.  B (fault enumeration): every '
                        'parseable type of both versions x every JSON slot down to depth 3 x wrong-kind values, through stix2.parse in both custom modes, '
-                       'parse_observable and constructors; whole-input scalars and text; registries compared with their snapshot.')
-    chk.assume('termination / RecursionError on adversarially deep nesting is not decided (neither by PyVC nor by the depth-3 bound)',
+                       'parse_observable and constructors; whole-input scalars and text; 17 nesting sites at depths near the stack limit; integers beyond the double range; registries compared with their snapshot.')
+    chk.assume('termination is not decided; RecursionError on deep nesting is checked by the bounded nesting family only (17 sites, depths up to the decoder\'s own limit), not proved',
                'the class constructors raise only Family errors: checked by the fault enumeration (B), not proved')
     c1 = K._fix_detect(K.detect_contract()); c1.replay = j_replay('detect_spec_version')
     c2 = K.dict_to_stix2_contract(); c2.replay = j_replay('dict_to_stix2')
@@ -199,6 +199,79 @@ def run(chk):
             r = attempt(fn, f'{nm}({jv!r})')
             if r: return (r[0], r[1], dict(r[2], input=repr(jv)))
     chk.bounded('whole-input junk', list(whole_inputs()), check_whole, classify=repr, bound='JSON scalars, arrays, malformed text and minimal dictionaries as the whole input, 5 entry-point variants')
+
+    # ---- selectors: well-formed granular-marking selectors that step through scalars, lists and absent properties (validated across properties, after cleaning)
+    from props.C08 import shapes as sel_shapes, near_misses as sel_near_misses, TLP as SEL_TLP
+    from props.C03 import selectors_of
+
+    def selector_cases():
+        for name, d in sel_shapes().items():
+            sels = sorted(set(sel_near_misses(d)) | {p for p, _ in selectors_of(d)})
+            for sel in sels: yield (name, sel)
+            yield (name, [sels[0], 5]); yield (name, None); yield (name, {'a': 1})
+
+    def check_selector(case):
+        name, sel = case
+        d = sel_shapes()[name]
+        gm = [{'marking_ref': SEL_TLP, 'selectors': sel if isinstance(sel, list) else [sel]}] if sel is not None and not isinstance(sel, dict) else [{'marking_ref': SEL_TLP, 'selectors': sel}]
+        x = dict(copy.deepcopy(d), granular_markings=gm)
+        cls = type(stix2.parse(copy.deepcopy(d), allow_custom=True))
+        for fn, nm in ((lambda: stix2.parse(copy.deepcopy(x)), 'parse'), (lambda: stix2.parse(copy.deepcopy(x), allow_custom=True), 'parse(allow_custom)'),
+                       (lambda: cls(**{k: v for k, v in copy.deepcopy(x).items() if k != 'type'}), 'constructor'),
+                       (lambda: stix2.markings.add_markings(copy.deepcopy(d), SEL_TLP, sel if isinstance(sel, list) else [sel]), 'add_markings(dict)'),
+                       (lambda: stix2.markings.is_marked(stix2.parse(copy.deepcopy(d)), SEL_TLP, sel if isinstance(sel, list) else [sel]), 'is_marked(object)')):
+            r = attempt(fn, f'{nm} of {name} with selector {sel!r}')
+            if r: return (r[0] + ':selector', r[1], dict(r[2], selector=repr(sel)))
+    chk.bounded('granular-marking selectors of every shape', list(selector_cases()), check_selector, classify=lambda c: (c[0], repr(c[1])),
+                bound='7 object shapes x (every existing path + near misses: absent key, one step too deep through a string / number / dictionary / list, index past the end, prefixes) x parse / constructor / marking functions')
+
+    # ---- deep nesting: JSON-decodable input whose nesting approaches the interpreter's stack limit (RecursionError must not escape)
+    U = G.UUID; EXTID = 'extension-definition--9c59fd79-4215-4ba2-920d-3e4f320e1e62'
+    TS = '"created": "2015-12-21T19:59:11.000Z", "modified": "2015-12-21T19:59:11.000Z"'
+    arr = lambda n: '[' * n + '1' + ']' * n
+    objn = lambda n: '{"k": ' * n + '1' + '}' * n
+    ident = lambda extra: '{"type": "identity", "spec_version": "2.1", "id": "identity--%s", %s, "name": "n"%s}' % (U, TS, extra)
+    NEST_SITES = {
+        'whole input: nested arrays': arr, 'whole input: nested objects': objn,
+        'bundle in bundle': lambda n: ('{"type": "bundle", "id": "bundle--%s", "objects": [' % U) * n + ident('') + ']}' * n,
+        'custom property: nested arrays': lambda n: ident(', "x_c": ' + arr(n)), 'custom property: nested objects': lambda n: ident(', "x_c": ' + objn(n)),
+        'file without id: extension-definition content': lambda n: '{"type": "file", "spec_version": "2.1", "name": "a", "extensions": {"%s": {"extension_type": "property-extension", "blob": %s}}}' % (EXTID, arr(n)),
+        'file with id: extension-definition content': lambda n: '{"type": "file", "spec_version": "2.1", "id": "file--%s", "name": "a", "extensions": {"%s": {"extension_type": "property-extension", "blob": %s}}}' % (U, EXTID, objn(n)),
+        'identity with granular markings and nested extension content': lambda n: ident(', "granular_markings": [{"marking_ref": "marking-definition--613f2e26-407d-48c7-9eca-b8e91df99dc9", "selectors": ["name"]}], "extensions": {"%s": {"extension_type": "property-extension", "blob": %s}}' % (EXTID, objn(n))),
+        'indicator pattern: nested parentheses': lambda n: json.dumps({'type': 'indicator', 'spec_version': '2.1', 'id': 'indicator--' + U, 'created': G.T1, 'modified': G.T1, 'pattern': '[' + '(' * n + 'a:b = 1' + ')' * n + ']', 'pattern_type': 'stix', 'valid_from': G.T1}),
+        'indicator pattern (2.0): nested parentheses': lambda n: json.dumps({'type': 'indicator', 'id': 'indicator--' + U, 'created': G.T1, 'modified': G.T1, 'pattern': '[' + '(' * n + 'a:b = 1' + ')' * n + ']', 'labels': ['l'], 'valid_from': G.T1}),
+        'string property: nested arrays': lambda n: '{"type": "identity", "spec_version": "2.1", "id": "identity--%s", %s, "name": %s}' % (U, TS, arr(n)),
+        'list property: nested arrays': lambda n: ident(', "labels": ' + arr(n)), 'embedded object: nested arrays': lambda n: ident(', "external_references": [{"source_name": %s}]' % arr(n)),
+        'extensions value: nested objects': lambda n: '{"type": "file", "spec_version": "2.1", "id": "file--%s", "name": "a", "extensions": %s}' % (U, objn(n)),
+        'registered extension content: nested arrays': lambda n: '{"type": "file", "spec_version": "2.1", "id": "file--%s", "name": "a", "extensions": {"ntfs-ext": {"sid": %s}}}' % (U, arr(n)),
+        'observed-data (2.0) member dictionary property: nested objects': lambda n: '{"type": "observed-data", "id": "observed-data--%s", %s, "first_observed": "2015-12-21T19:59:11.000Z", "last_observed": "2015-12-21T19:59:11.000Z", "number_observed": 1, "objects": {"0": {"type": "email-message", "is_multipart": false, "additional_header_fields": {"X": %s}}}}' % (U, TS, objn(n)),
+        'selector list: nested arrays': lambda n: ident(', "granular_markings": [{"marking_ref": "marking-definition--613f2e26-407d-48c7-9eca-b8e91df99dc9", "selectors": %s}]' % arr(n)),
+    }
+    depths = (200, 450, 700, 950, 1200, 1450) if chk.tier == 'thorough' else (450, 950, 1400)
+
+    def nest_cases():
+        for site in NEST_SITES:
+            for n in depths: yield (site, n)
+
+    def check_nest(case):
+        site, n = case
+        text = NEST_SITES[site](n)
+        try: value = json.loads(text)
+        except RecursionError: return None             # not JSON-decodable on this interpreter: outside the property
+        routes = [(lambda: stix2.parse(text), 'parse(text)'), (lambda: stix2.parse(text, allow_custom=True), 'parse(text, allow_custom)'), (lambda: stix2.parse(value, allow_custom=True), 'parse(dict, allow_custom)')]
+        if isinstance(value, dict) and isinstance(value.get('type'), str):
+            cls = registry.class_for_type(value['type'], '2.1' if value.get('spec_version') == '2.1' or value['type'] == 'bundle' else '2.0')
+            if cls is not None:
+                kw = {k: v for k, v in value.items() if k != 'type'}
+                routes.append((lambda: cls(allow_custom=True, **kw), f'{cls.__name__}(**dict, allow_custom)')); routes.append((lambda: cls(**kw), f'{cls.__name__}(**dict)'))
+        for fn, nm in routes:
+            try: fn()
+            except Exception as ex:      # noqa
+                if not family_ok(ex): return (f'escape#{type(ex).__name__}:deep nesting:{site}', f'{nm} of {site} at nesting depth {n}: {type(ex).__name__}: {str(ex)[:80]}', {'site': site, 'depth': n, 'route': nm})
+            except RecursionError as ex:
+                return (f'escape#RecursionError:deep nesting:{site}', f'{nm} of {site} at nesting depth {n}: RecursionError', {'site': site, 'depth': n, 'route': nm})
+    chk.bounded('deep nesting (JSON-decodable, near the stack limit)', list(nest_cases()), check_nest, classify=lambda c: c,
+                bound=f'{len(NEST_SITES)} nesting sites x depths {depths} x parse (text / dictionary, both custom modes) and the class constructors')
 
     def ctor_cases():
         for ver in ('2.0', '2.1'):
